@@ -1517,6 +1517,18 @@ def h_successors(I, st, a, t, b):
     return {'#iter': 'seq', 'items': tuple(out), 'pos': 0}
 
 
+def h_ok_or_else(I, st, a, t, b):
+    v = _opt(I, st, a[0])
+    if v[1] == 1:
+        return ('enum', 0, (v[2][0],))
+    return ('enum', 1, (_call_f(I, st, a[1], []),))
+
+
+def h_ok_or(I, st, a, t, b):
+    v = _opt(I, st, a[0])
+    return ('enum', 0, (v[2][0],)) if v[1] == 1 else ('enum', 1, (a[1],))
+
+
 def h_try_branch(I, st, a, t, b):
     """`x?` on an Option / Result value: ControlFlow::Continue(payload) = variant 0, ControlFlow::Break(residual) = variant 1"""
     v = _deref_arg(I, st, a[0])
@@ -1729,7 +1741,7 @@ BUILTINS.update({
     'Vec::is_empty': h_is_empty, 'slice::is_empty': h_is_empty, 'slice::last': h_seq_last, 'slice::first': h_seq_first, 'slice::get': h_seq_get,
     'iter::once': h_iter_once, 'sources::once': h_iter_once, 'once::once': h_iter_once, 'Iterator::chain': h_iter_chain, 'slice::windows': h_windows, 'Option::unwrap': h_opt_unwrap,
     'IndexMut::index_mut': h_index_mut,
-    'Try::branch': h_try_branch, 'FromResidual::from_residual': h_from_residual, 'slice::to_vec': h_to_vec, 'Iterator::take': h_iter_take, 'Iterator::skip': h_iter_skip, 'slice::reverse': h_reverse, 'Vec::append': h_vec_append, 'mem::swap': h_mem_swap,
+    'Option::ok_or_else': h_ok_or_else, 'Option::ok_or': h_ok_or, 'Try::branch': h_try_branch, 'FromResidual::from_residual': h_from_residual, 'slice::to_vec': h_to_vec, 'Iterator::take': h_iter_take, 'Iterator::skip': h_iter_skip, 'slice::reverse': h_reverse, 'Vec::append': h_vec_append, 'mem::swap': h_mem_swap,
     'PartialEq::eq': h_str_eq, 'str::eq': h_str_eq, 'iter::successors': h_successors, 'successors::successors': h_successors, 'sources::successors': h_successors,
     'Index::index': h_vec_index, 'Vec::new': h_vec_new, 'Vec::with_capacity': h_vec_new, 'Vec::push': h_vec_push, 'slice::iter_mut': h_iter_mut, 'Vec::iter_mut': h_iter_mut, 'Iterator::filter': h_iter_filter, 'Iterator::filter_map': h_iter_filter_map, 'Extend::extend': h_extend, 'Vec::extend': h_extend,
 })
